@@ -51,7 +51,14 @@ struct Expect {
     /// alternative values a block may legally hold besides model.disk
     alts: BTreeMap<u64, Vec<Vec<u8>>>,
     kind_uncertain: Vec<bool>,
+    /// host clusters found in the device's new-cluster set (allocated, mapped, not zeroed yet)
+    /// right after a write_at call that returned Err
+    left_new: std::collections::BTreeSet<u64>,
 }
+
+/// Case predicate of a known finding: the violating guest cluster is mapped to a host cluster
+/// that a failed write_at left allocated, mapped and never zeroed.
+const TAG_UNZEROED: &str = "unzeroed_new_cluster_left_by_failed_write";
 
 impl Expect {
     fn block_ok(&self, gb: u64, got: &[u8]) -> bool {
@@ -153,9 +160,21 @@ fn run_one(case: &SeqCase, plan: Option<FaultPlan>, out: &mut FaultRun) -> Optio
         model: Model::new(&case.layers, &layers.truths),
         alts: BTreeMap::new(),
         kind_uncertain: vec![],
+        left_new: Default::default(),
     };
     ex.kind_uncertain = vec![false; ex.model.clusters()];
     let r = run_one_inner(case, &world, &mut ex, &mut out.stats, with_faults);
+    if std::env::var("VERIF_TRACE").is_ok() {
+        let w = world.0.borrow();
+        let cs = ex.model.cs as u64;
+        for r in w.log.iter() {
+            eprintln!(
+                "  seq {:3} f{} {:?} off {:6} (cluster {:3}+{:4}) len {:6} submit {} complete {:?} ok {}",
+                r.seq, r.file, r.kind, r.off, r.off / cs, r.off % cs, r.len, r.submit_ev, r.complete_ev, r.ok
+            );
+        }
+        eprintln!("  result {:?}", r.as_ref().err().map(|v| &v.msg));
+    }
     // classify injected faults
     {
         let w = world.0.borrow();
@@ -264,6 +283,9 @@ fn run_one_inner(case: &SeqCase, world: &World, ex: &mut Expect, st: &mut FaultS
                     }
                     Err(e) => {
                         check_err(world, format!("write_at(off={off}, len={len})"), format!("{e:?}"), st)?;
+                        if let Some(nc) = dev.verif_new_clusters() {
+                            ex.left_new.extend(nc);
+                        }
                         for k in 0..(*len / BLK) {
                             let gb = *off / BLK as u64 + k as u64;
                             ex.alts.entry(gb).or_default().push(data[k * BLK..(k + 1) * BLK].to_vec());
@@ -280,7 +302,15 @@ fn run_one_inner(case: &SeqCase, world: &World, ex: &mut Expect, st: &mut FaultS
                 let r = drv(drive(world, &mut sched, dev.read_at(&mut buf, *off)), "read_at").map_err(|v| v.at(i))?;
                 match r {
                     Ok(n) if n == *len => {
-                        if let Some(v) = ex.check(*off, &buf, &format!("read_at(off={off}, len={len})")) {
+                        if let Some(mut v) = ex.check(*off, &buf, &format!("read_at(off={off}, len={len})")) {
+                            if let Some(g) = v.cluster {
+                                let mut s0 = Sched::new(None);
+                                if let Driven::Done(Ok(m)) = drive(world, &mut s0, dev.get_mapping((g * cs) as u64)) {
+                                    if m.cluster_offset.map(|o| ex.left_new.contains(&(o / cs as u64))) == Some(true) {
+                                        v = v.tag(TAG_UNZEROED);
+                                    }
+                                }
+                            }
                             return Err(v.at(i).tag("live"));
                         }
                     }
@@ -392,6 +422,13 @@ fn run_one_inner(case: &SeqCase, world: &World, ex: &mut Expect, st: &mut FaultS
             }
         }
         v.msg += &format!(" | mappings: {}", maps.join(" "));
+        if let Some(g) = v.cluster {
+            if let Driven::Done(Ok(m)) = drive(world, &mut s2, dev.get_mapping((g * cs) as u64)) {
+                if m.cluster_offset.map(|o| ex.left_new.contains(&(o / cs as u64))) == Some(true) {
+                    v = v.tag(TAG_UNZEROED);
+                }
+            }
+        }
         return Err(v.tag("after_heal").tag("live"));
     }
     // file state
@@ -420,6 +457,13 @@ fn run_one_inner(case: &SeqCase, world: &World, ex: &mut Expect, st: &mut FaultS
     let readable = got.len() - got.len() % bs;
     if let Some(mut v) = ex.check(0, &got[..readable], "reopened device after healing + flush") {
         v.rule = Rule::Reopen;
+        if let Some(g) = v.cluster {
+            if let Driven::Done(Ok(m)) = drive(&w2, &mut s3, d2.get_mapping((g * cs) as u64)) {
+                if m.cluster_offset.map(|o| ex.left_new.contains(&(o / cs as u64))) == Some(true) {
+                    v = v.tag(TAG_UNZEROED);
+                }
+            }
+        }
         return Err(v.tag("after_heal").tag("reopened"));
     }
     st.reopen_compares += 1;
